@@ -221,6 +221,17 @@ func (m *Machine) setupIntrinsics() {
 		}
 		return goInt(-1)
 	})
+	le := func(n int) Intrinsic {
+		return func(m *Machine, a []Val) Val {
+			sl := a[0].(Slice)
+			if len(sl.V) < n {
+				panic(GoPanic{"index out of range in vLE"})
+			}
+			return m.leInt(sl.V[:n], 8*n, false)
+		}
+	}
+	reg("vLE32", le(4))
+	reg("vLE64", le(8))
 	reg("vIsOpaque", func(m *Machine, a []Val) Val { return Bool{C: a[0].(Slice).Blob != nil} })
 	reg("vBlobKind", func(m *Machine, a []Val) Val {
 		id := a[0].(Int).AsInt()
